@@ -190,6 +190,27 @@ func (s *c10Resp) Close() {
 type c10Hook struct {
 	mu   sync.Mutex
 	errs []string
+	raw  []error
+}
+
+// Len / Since give the errors recorded after a certain point.
+func (h *c10Hook) Len() int {
+	h.mu.Lock()
+	defer h.mu.Unlock()
+	return len(h.raw)
+}
+
+func (h *c10Hook) Since(n int) []error {
+	h.mu.Lock()
+	defer h.mu.Unlock()
+	return append([]error(nil), h.raw[n:]...)
+}
+
+// Forget drops errors that have been accounted for (a publish the station aborted itself).
+func (h *c10Hook) Forget(n int) {
+	h.mu.Lock()
+	defer h.mu.Unlock()
+	h.raw, h.errs = h.raw[:n], h.errs[:n]
 }
 
 func (h *c10Hook) BeforeProcess(ctx context.Context, cmd redis.Cmder) (context.Context, error) {
@@ -199,6 +220,7 @@ func (h *c10Hook) AfterProcess(ctx context.Context, cmd redis.Cmder) error {
 	if err := cmd.Err(); err != nil {
 		h.mu.Lock()
 		h.errs = append(h.errs, cmd.Name()+": "+err.Error())
+		h.raw = append(h.raw, err)
 		h.mu.Unlock()
 	}
 	return nil
@@ -886,76 +908,13 @@ func TestVerif_C10_announce(t *testing.T) {
 	}
 }
 
-// TestVerif_C10_clear: the clear request on its own, with and without sessions in the detector.
-func TestVerif_C10_clear(t *testing.T) {
-	rec := vh.NewRec("C10", "clear", "Cleanup() on a station with 0..3 announced registrations; the published clear request must be one the modelled detector acts on (its session table ends up empty). Exhaustive over {no registration, one IPv4, one IPv6, dual-stack + UDP}. Non-trivial: the detector holds at least one session when the request arrives.")
-	defer rec.Flush()
-	rec.Require("clear:with-sessions", "clear:empty-table")
-	rec.SetExhaustive(true)
-	w := c10NewWorld(t, rec)
-	base := c07Msg{HasSecret: true, Secret: vh.Hex(vSecret(777)), HasPayload: true, Source: 2, HasRegAddr: true, RegAddr: c07IP("198.51.100.7"),
-		LibVer: 4, Gen: 957, Transport: 1, Params: c07Params{Kind: "generic"}, HasCovert: true, Covert: "192.0.2.10:443", V4: 1, V6: 1, Flags: 0}
-	conf := c07Conf{EnableV4: true, EnableV6: true, Transports: append([]int(nil), c07TransportsAll...)}
-	for i, variant := range []string{"dual+udp", "v4", "v6", "none"} {
-		if !vh.Mine(i) && vh.ReplayFile() == "" {
-			continue
-		}
-		c := c07Case{Msg: base, Conf: conf, Live: "notlive"}
-		w.e.apply(c.Conf, c.Live)
-		w.srv.Take()
-		det := &c10Detector{Sessions: map[string]uint64{}}
-		switch variant {
-		case "none":
-		case "v4":
-			c.Msg.V6 = 0
-		case "v6":
-			c.Msg.V4 = 0
-		case "dual+udp":
-			c2 := c
-			c2.Msg.Transport, c2.Msg.Params, c2.Msg.Secret = 3, c07Params{Kind: "dtls"}, vh.Hex(vSecret(778))
-			if _, err := w.e.deliver(c07Build(c2.Msg)); err != nil {
-				t.Fatalf("harness problem: %v", err)
-			}
-		}
-		if variant != "none" {
-			if _, err := w.e.deliver(c07Build(c.Msg)); err != nil {
-				t.Fatalf("harness problem: %v", err)
-			}
-		}
-		for _, p := range w.srv.Take() {
-			m, v := w.decode(p)
-			if v != nil {
-				t.Fatalf("harness problem: %s", v.Msg)
-			}
-			det.Handle(m)
-		}
-		class := "clear:with-sessions"
-		if variant == "none" {
-			class = "clear:empty-table"
-		} else if len(det.Sessions) == 0 {
-			t.Fatalf("harness problem: no session in the detector model before the clear request (%s)", variant)
-		}
-		rec.Case(len(det.Sessions) > 0, vh.Digest(variant), map[string]any{"variant": variant, "sessions": len(det.Sessions)}, class)
-		v, err := w.checkClear(det)
-		if err != nil {
-			t.Fatalf("harness problem: %v", err)
-		}
-		if v != nil {
-			if herr := c10ClientHook.Err(); herr != nil {
-				t.Fatalf("harness problem: %v", herr)
-			}
-			rec.Violation(t, v.Key, map[string]any{"variant": variant}, "%s", v.Msg)
-		}
-	}
-}
-
 // TestVerif_C10_lifetimes: the lifetime requested from the detector is the lifetime the station
 // itself applies. A registration is aged to just under / just over the lifetime named in the New
 // (then Update) message and the sweeper is run: it has to survive / be removed.
 func TestVerif_C10_lifetimes(t *testing.T) {
-	rec := vh.NewRec("C10", "lifetimes", "for every transport x family: ingest (New), age the registration to requested lifetime -/+ 60 s, sweep: usable before, forgotten after; again with MarkActive (Update). Time is advanced by shifting the recorded registration time backwards. Exhaustive over 4 transports x 2 families x {unused, used}. Non-trivial: every case.")
+	rec := vh.NewRec("C10", "lifetimes", "for every transport x family: ingest (New), age the registration to requested lifetime -/+ 60 s, sweep: usable before, forgotten after; again with MarkActive (Update). Time is advanced by shifting the recorded registration time backwards. Exhaustive over 4 transports x 2 families x {unused, used}. Plus every history [ingest] + up to 4 (thorough: 5) operations from {ingest the same message again, mark active, advance 5 min, 7 min, 2 h 59 min, 3 h 5 min, sweep} + [sweep]: at every sweep point a registration the station still hands out must have a live session in the modelled detector (announcements actually published, each counted from the moment it was published, the longer one kept; 60 s slack). Non-trivial: every case.")
 	defer rec.Flush()
-	rec.Require("unused", "used")
+	rec.Require("unused", "used", "history:duplicate-ingest", "history:sweep-past-detector-lifetime", "history:used")
 	rec.SetExhaustive(true)
 	w := c10NewWorld(t, rec)
 	e := w.e
@@ -1037,4 +996,5 @@ func TestVerif_C10_lifetimes(t *testing.T) {
 			}
 		}
 	}
+	c10EnumHistories(t, rec, w)
 }
